@@ -4,6 +4,7 @@ CONSTANTS
   MaxSends = 3
   MaxWakes = 1
   Horizon = 2
+  Repaired = TRUE
   WakeDelays = {1}
 INVARIANTS BufferBounds TickDiscipline GuardSound TimeBounded Emit
 CHECK_DEADLOCK TRUE
